@@ -16,7 +16,7 @@ from .c14 import scaled_models, scaled_dae
 PROP = 'C18'
 LEVEL = 'translation_validation'
 META = {
-    'rule': 'instance = (feature-rich model, method, grid, save moment in {before first transcription, after transcription}); the OCP returned by Ocp.load(save(ocp)) and the original are '
+    'rule': 'instance = (feature-rich model, method, grid, save moment in {before first transcription, after transcription, after transcription followed by an edit}); the OCP returned by Ocp.load(save(ocp)) and the original are '
             'both transcribed by the real code; complete row multisets and objectives proven equal for all x (z3); x0, p, method class/settings, solver name/options, accessor '
             'lists (order and shapes) compared (ground); the original is transcribed again after saving and must still equal itself',
     'functions': ['rockit/ocp.py:save/load/_untranscribe', 'rockit/casadi_helpers.py:rockit_pickle_context/rockit_unpickle_context/HashList/HashDict/HashOrderedDict (__getstate__/__setstate__)',
@@ -53,7 +53,7 @@ def instances(tier, seed):
         for method, intg in (('MS', 'rk'), ('SS', 'expl_euler'), ('DC', None)):
             ms = models() + ([scaled_dae()] if method == 'DC' else [])
             for s in ms:
-                for when in ('before', 'after'):
+                for when in ('before', 'after', 'edited'):
                     h = H[n % len(H)]
                     N = [2, 3][n % 2]
                     M = [1, 2][(n // 2) % 2]
@@ -99,12 +99,25 @@ def run(item):
     O = None
     if when == 'after':
         O = Inst(spec, cfg, seed=item.get('seed', 0), built=b, solver=False)
+    if when == 'edited':
+        # transcribe, then edit the specification, then save: the stale transcription must not get in the way
+        with quiet():
+            b.ocp._transcribed
+            extra = Con('<=', X(0), 11)
+            b.ocp.subject_to(b.mx(extra.lhs) <= b.mx(extra.rhs))
+        spec = copy.deepcopy(spec)
+        spec.cons = list(spec.cons) + [extra]
     fd, path = tempfile.mkstemp(suffix='.rockit', prefix='rvc18_')
     os.close(fd)
     try:
-        with quiet():
-            b.ocp.save(path)
-            ocp2 = Ocp.load(path)
+        try:
+            with quiet():
+                b.ocp.save(path)
+                ocp2 = Ocp.load(path)
+        except Exception as e:
+            return {'status': 'violation', 'stats': {}, 'obligations': 1, 'discharged': 0, 'shape': '%s|%s' % (cfg.tag(), when),
+                    'violations': [{'property': PROP, 'key': 'save-raises|%s|save-%s' % (cfg.method, when), 'label': 'save/load', 'cfg': repr(cfg), 'spec': spec.note,
+                                    'detail': 'ocp.save/Ocp.load raised for a save %s: %s' % ({'edited': 'after a transcription followed by subject_to', 'after': 'after a transcription', 'before': 'before the first transcription'}[when], str(e).strip().splitlines()[-1][:200])}]}
     finally:
         if os.path.exists(path):
             os.remove(path)
